@@ -362,7 +362,9 @@ def cdsHits (ans : List Rec) (g : Gene) (t : Tx) : List Rec :=
 def cdsReaderClauses (fl : Flavor) (trans : Bool) (seq : Option Str) (t : Tx) (r : Rec) : List String :=
   (if readerFrame r == some (startFrameNat t) then [] else [s!"codon_start{cdsClass t}"]) ++
   (match trans, seq with
-   | true, some s => if !t.oneFrame || okTranslationOf fl s r then [] else [s!"translation{cdsClass t}"]
+   -- (a source that itself carries a `/translation` qualifier keeps it when nothing can be translated: outside the claim)
+   | true, some s => if !t.oneFrame || t.quals.any (·.1 == kTranslation) || okTranslationOf fl s r then []
+                     else [s!"translation{cdsClass t}"]
    -- not requested: a /translation the source carried as a qualifier passes through (documented: "calculated or
    -- re-calculated" only on request)
    | _, _ => [])
